@@ -146,11 +146,20 @@ func sVal(v reflect.Value) string {
 		for it := v.MapRange(); it.Next(); {
 			kvs = append(kvs, kv{it.Key(), it.Value()})
 		}
-		sort.SliceStable(kvs, func(i, j int) bool { return keyText(kvs[i].k) < keyText(kvs[j].k) })
 		var p []string
+		texts := map[string]string{}
 		for _, e := range kvs {
-			p = append(p, "("+sVal(e.k)+" "+sVal(e.v)+")")
+			s := "(" + sVal(e.k) + " " + sVal(e.v) + ")"
+			texts[s] = keyText(e.k)
+			p = append(p, s)
 		}
+		// total order: by key text, ties (NaN keys, 1 vs "1" under interface keys) by the serialised entry
+		sort.Slice(p, func(i, j int) bool {
+			if texts[p[i]] != texts[p[j]] {
+				return texts[p[i]] < texts[p[j]]
+			}
+			return p[i] < p[j]
+		})
 		return fmt.Sprintf("(VMap %v (%s))", v.IsNil(), strings.Join(p, " "))
 	case reflect.Struct:
 		var p []string
@@ -269,11 +278,19 @@ func cVal(v reflect.Value) string {
 		for it := v.MapRange(); it.Next(); {
 			kvs = append(kvs, kv{it.Key(), it.Value()})
 		}
-		sort.SliceStable(kvs, func(i, j int) bool { return keyText(kvs[i].k) < keyText(kvs[j].k) })
 		var p []string
+		texts := map[string]string{}
 		for _, e := range kvs {
-			p = append(p, "("+cVal(e.k)+" "+cVal(e.v)+")")
+			s := "(" + cVal(e.k) + " " + cVal(e.v) + ")"
+			texts[s] = keyText(e.k)
+			p = append(p, s)
 		}
+		sort.Slice(p, func(i, j int) bool {
+			if texts[p[i]] != texts[p[j]] {
+				return texts[p[i]] < texts[p[j]]
+			}
+			return p[i] < p[j]
+		})
 		return fmt.Sprintf("(VMap %v (%s))", v.IsNil(), strings.Join(p, " "))
 	case reflect.Struct:
 		var p []string
